@@ -35,7 +35,8 @@ def load_seeded():
         patch = os.path.join(d, name, "patch.diff")
         if os.path.exists(meta) and os.path.exists(patch):
             mj = json.load(open(meta))
-            out.append({"name": "seeded/" + name, "props": mj.get("checks") or [mj["property"]], "patch": patch})
+            out.append({"name": "seeded/" + name, "props": mj.get("checks") or [mj["property"]], "patch": patch,
+                        "outside_quantifier": mj.get("outside_quantifier")})
     return out
 
 
@@ -127,6 +128,10 @@ def main():
             if crashed:
                 print("      CHECK CRASHED: %s" % crashed)
             row["status"] = "caught" if caught else ("inconclusive" if incon else "MISSED")
+            if row["status"] == "MISSED" and mut.get("outside_quantifier"):
+                # kept for the record: the change needs inputs the property does not quantify over (reason in meta.json)
+                row["status"] = "outside-quantifier"
+                row["outside_quantifier"] = mut["outside_quantifier"]
             if a.equivalent:
                 row["status"] = "silent" if all(c["exit"] == 0 for c in row["checks"].values()) else "FALSE-ALARM"
             results.append(row)
